@@ -1312,8 +1312,10 @@ def gen_own(ctx: Ctx, rng):
         inp = fg.rand_state(rng, c.input_modes, max(0, min(rng.choice([1, 2, 2, 3]), cap - hp)))
     n = rng.choice([2, 3, 3, 4, 5])
     samplers = []
+    # most Samplers of a world are created in the same way (a default that is shared per call form shows only between those)
+    main_form = rng.choice(["omit", "omit", "none", "none", "pos", "default_obj"])
     for i in range(n):
-        form = rng.choice(["omit", "omit", "none", "none", "pos", "default_obj", "kwargs"])
+        form = main_form if rng.random() < 0.6 else rng.choice(["omit", "omit", "none", "none", "pos", "default_obj", "kwargs"])
         sp = {"backend": rng.choice(["permanent", "slos"]), "form": form,
               "input": inp if rng.random() < 0.7 else fg.rand_state(rng, c.input_modes, max(0, min(rng.choice([1, 2, 3]), cap - hp)))}
         if form == "kwargs":
@@ -1386,14 +1388,16 @@ def own_corpus() -> list[dict]:
                               obs([1, 2, 3, 4], True), obs([0])]})
     # one emitter: g2 of a default source stays 0 while another default source is made impure; explicit Source() objects too
     out.append({"kind": "own", "prog": WIRE_PROG, "state": [1], "photons": 1,
-                "samplers": [smp("default_obj", [1]), smp("omit", [1]), smp("default_obj", [1], "slos"), smp("none", [1], "slos")],
+                "samplers": [smp("default_obj", [1]), smp("omit", [1]), smp("default_obj", [1], "slos"), smp("none", [1], "slos"),
+                             smp("omit", [1], "slos"), smp("none", [1])],
                 "steps": [new(0), new(1), tune(0, [["x", "1/10"], ["nu", "3/4"]]), obs([1, 0], True), new(2), new(3), obs([2, 3], True),
-                          tune(3, [["x", "1/3"]]), obs([0, 1, 2, 3])]})
+                          tune(3, [["x", "1/3"]]), obs([0, 1, 2, 3]), tune(1, [["x", "1/20"]]), new(4), new(5), obs([4, 5, 2], True), obs([1, 3])]})
     # a threshold / brightness tuned on one default source does not prune the inputs of another
-    out.append({"kind": "own", "prog": HOM_PROG, "state": [1, 1], "photons": 2,
-                "samplers": [smp("none", [1, 1]), smp("omit", [1, 1]), smp("pos", [1, 1], "slos")],
-                "steps": [new(0), new(1), obs([0, 1]), tune(0, [["nu", "3/4"], ["thr", "1/7"]]), obs([1, 0], True), new(2), obs([2], True),
-                          tune(0, [["thr", "9/10"]]), obs([1, 2])]})
+    for form in OWN_DEFAULT_FORMS:
+        out.append({"kind": "own", "prog": HOM_PROG, "state": [1, 1], "photons": 2,
+                    "samplers": [smp(form, [1, 1]), smp(form, [1, 1]), smp(form, [1, 1], "slos")],
+                    "steps": [new(0), new(1), obs([0, 1]), tune(0, [["nu", "3/4"], ["thr", "1/7"]]), obs([1, 0], True), new(2), obs([2], True),
+                              tune(0, [["thr", "9/10"]]), obs([1, 2])]})
     return out
 
 
